@@ -872,6 +872,25 @@ pub async fn run_case(backend: &str, seed: u64, rep: &mut Report, ops: &mut Vec<
             }
         }
     }
+    // C12 epilogue (after the model correspondence is complete): every live folder gets a description that differs
+    // from the one it was created with, is compacted, and must be served and replay as before the compaction
+    {
+        let mut a = w.devices[0].lock().await;
+        let fids: Vec<VaultId> = live.keys().cloned().collect();
+        for fid in fids {
+            if a.set_folder_description(&fid, format!("described late {seed}")).await.is_err() { continue; }
+            let before = served(&mut a, &fid).await;
+            if a.compact_folder(&fid).await.is_err() { continue; }
+            cx.rep.count("c12:describe-then-compact");
+            let after = served(&mut a, &fid).await;
+            if let (Ok(b), Ok(af)) = (&before, &after) {
+                if !same_content(b, af) { let what = if b.flags != af.flags { "flags" } else if b.name != af.name { "name" } else if b.desc != af.desc { "description" } else { "secrets" }; cx.fail(&format!("c12-compaction-changed-{what}"), "folder differs after compaction (epilogue)"); }
+            }
+            if let (Ok(b), Ok(rp)) = (&before, &replayed(&a, &fid).await) {
+                if !same_content(b, rp) { let what = if b.flags != rp.flags { "flags" } else if b.name != rp.name { "name" } else if b.desc != rp.desc { "description" } else { "secrets" }; cx.fail(&format!("c12-compacted-log-replays-with-different-{what}"), "replay of the compacted log differs from the folder before compaction (epilogue)"); }
+            }
+        }
+    }
     let s = cx.script.join(";");
     cx.rep.case(&s, true);
     if seed % 40 == 0 { let sc = cx.script.clone(); cx.rep.sample(json!({"script": sc})); }
